@@ -22,6 +22,7 @@ type Harness struct {
 	MaxThreads     int
 	MaxSchedPoints int
 	MaxDecisions   int
+	ConcIndexMax   int
 	MaxPreemptions int // context-switch bound for the symbolic scheduler (-1 = unbounded)
 	mapOrderFixed  bool
 	KnownActive    map[string]bool // known-finding keys listed as `finding:`
